@@ -18,9 +18,12 @@ import (
 	"fmt"
 	"os"
 	"path/filepath"
+	"reflect"
 	"sort"
 	"strings"
 	"time"
+
+	"github.com/bluenviron/mediacommon/v2/pkg/formats/fmp4"
 
 	"github.com/bluenviron/mediamtx/internal/zzverif/reclib"
 	"github.com/bluenviron/mediamtx/internal/zzverif/vcommon"
@@ -56,6 +59,12 @@ func histories(thorough bool) []reclib.History {
 			SegmentDuration: 250 * time.Millisecond,
 			Sessions: []reclib.Session{b.Build(reclib.SessionOpts{Video: true, PTS0: 3 * time.Second,
 				VideoPeriod: 50 * time.Millisecond, VideoCount: 20, GOP: 4, FirstIDR: 2, VideoSize: 17})}},
+		// the encoder is reconfigured twice while it is recorded: the key frames 4 and 12 carry
+		// other in-band parameter sets than the ones before (both in the middle of a segment)
+		{Name: "video-only, in-band H.264 parameters change twice at key frames in the middle of the recording, GOP 4", PartDuration: 100 * time.Millisecond,
+			SegmentDuration: 250 * time.Millisecond,
+			Sessions: []reclib.Session{b.Build(reclib.SessionOpts{Video: true, PTS0: 6 * time.Second,
+				VideoPeriod: 50 * time.Millisecond, VideoCount: 21, GOP: 4, ParamChangeAt: []int{4, 12}, VideoSize: 12})}},
 	}
 	if thorough {
 		// these two are followed by a restart and a second session as well (appended: the write
@@ -73,9 +82,49 @@ func histories(thorough bool) []reclib.History {
 			reclib.History{Name: "video+audio, one part per segment", PartDuration: 500 * time.Millisecond, SegmentDuration: 200 * time.Millisecond,
 				Sessions: []reclib.Session{b.Build(reclib.SessionOpts{Video: true, Audio: true, PTS0: 7 * time.Second,
 					VideoPeriod: 100 * time.Millisecond, VideoCount: 9, GOP: 2, AudioCount: 36, VideoSize: 40, AudioSize: 12})}},
+			reclib.History{Name: "H.265 video + audio, in-band parameters change once at a key frame in the middle of the recording, GOP 5", PartDuration: 100 * time.Millisecond,
+				SegmentDuration: 400 * time.Millisecond,
+				Sessions: []reclib.Session{b.Build(reclib.SessionOpts{Video: true, Audio: true, VideoKind: reclib.KindH265, PTS0: 8 * time.Second,
+					VideoPeriod: 50 * time.Millisecond, VideoCount: 21, GOP: 5, ParamChangeAt: []int{5}, AudioCount: 44, VideoSize: 15, AudioSize: 6})}},
 		)
 	}
 	return hs
+}
+
+// hasParamChange tells whether a history changes its in-band codec parameters.
+func hasParamChange(h reclib.History) bool {
+	for _, s := range h.Sessions {
+		for i, u := range s.Units {
+			if i > 0 && u.Params != 0 {
+				return true
+			}
+		}
+	}
+	return false
+}
+
+// headerParamsDiffer counts the segments of a normally closed recording whose header declares
+// other codec parameters than the header of the segment before (same stream).
+func headerParamsDiffer(final map[string][]byte, segs []reclib.SegFile) (int, error) {
+	n := 0
+	var prev *fmp4.Init
+	prevStream := ""
+	for i := range segs {
+		var in fmp4.Init
+		if err := in.Unmarshal(bytes.NewReader(final[segs[i].Rel][:segs[i].Info.HeaderLen])); err != nil {
+			return 0, err
+		}
+		if prev != nil && prevStream == segs[i].Info.StreamID && len(prev.Tracks) == len(in.Tracks) {
+			for ti := range in.Tracks {
+				if !reflect.DeepEqual(prev.Tracks[ti].Codec, in.Tracks[ti].Codec) {
+					n++
+					break
+				}
+			}
+		}
+		prev, prevStream = &in, segs[i].Info.StreamID
+	}
+	return n, nil
 }
 
 // streamShapes is the family of streams used for the clauses about segments closed normally
@@ -103,6 +152,32 @@ func streamShapes(b *reclib.Builder) []reclib.History {
 	// recorder can write is an audio one, the video units it holds at that moment are older
 	for _, skew := range []time.Duration{50 * ms, 120 * ms, 280 * ms} {
 		out = append(out, shape(b, 100*ms, skew, 0))
+	}
+	// the in-band codec parameters change at a key frame in the middle of the recording: once (at
+	// a key frame at which a new segment is due anyway) and twice (at key frames inside a segment),
+	// GOPs of 3, 4 and 5 frames (the sample before the key frame is not a random-access one)
+	for _, kind := range []string{reclib.KindH264, reclib.KindH265, reclib.KindAV1} {
+		for _, gop := range []int{3, 4, 5} {
+			for _, at := range [][]int{{2 * gop}, {gop, 3 * gop}} {
+				seg := 250 * ms
+				if gop == 5 {
+					seg = 400 * ms
+				}
+				o := reclib.SessionOpts{Video: true, VideoKind: kind, PTS0: 4 * time.Second, VideoPeriod: 50 * ms, VideoCount: 5*gop + 1, GOP: gop,
+					ParamChangeAt: at, VideoSize: 9}
+				with := "video only"
+				if kind != reclib.KindAV1 {
+					o.Audio, o.AudioCount, o.AudioSize = true, (5*gop+1)*50*441/10240, 4
+					with = "video+audio"
+				}
+				out = append(out, reclib.History{
+					Name: fmt.Sprintf("stream shape: %s %s, GOP %d, in-band codec parameters change at the key frames %v, segments of %dms",
+						kind, with, gop, at, seg/ms),
+					PartDuration: 100 * ms, SegmentDuration: seg,
+					Sessions:     []reclib.Session{b.Build(o)},
+				})
+			}
+		}
 	}
 	return out
 }
@@ -149,7 +224,7 @@ func main() {
 	r.Rule = "crash states = for every history: every prefix of the write log; the next write torn at every byte (quick: header writes every byte below 128 then every 8th); the next appending write " +
 		"zero-filled from every byte (quick: every byte below 128, then every 4th); every non-suffix subset of the last 3 writes lost; each of those that interrupts a session followed by another one " +
 		"also with the files of the later sessions (restart, closed normally) on disk. distinct = (history, kind of state, per-file shape " +
-		"[header, complete parts, kind of tail, duration field], status of every playback request). Stream shapes (skew x part duration) are recorded and closed normally: clauses about closed segments only"
+		"[header, complete parts, kind of tail, duration field], status of every playback request). Stream shapes (skew x part duration; in-band codec parameters changing once / twice at key frames for H.264, H.265, AV1 x GOP 3,4,5) are recorded and closed normally: clauses about closed segments only"
 	// a replay looks its state up in the largest enumeration (the thorough one)
 	full := r.Thorough() || *flagReplay != ""
 	histTier := r.Tier
@@ -175,6 +250,15 @@ func main() {
 	steps := 0
 	shapes := 0
 	lateDiscarded := 0
+
+	// the generated video streams must be what every corpus assumes (DTS == PTS), judged by the
+	// timestamp extractors the recorder uses
+	for _, h := range hs {
+		if err2 := reclib.CheckVideoDTS(h); err2 != nil {
+			harnessErr("generated stream: %v", err2)
+		}
+	}
+	paramHists, paramHeaders := 0, 0
 
 	// every history is recorded in a directory of its own (concurrently: they share nothing)
 	type recorded struct {
@@ -233,6 +317,20 @@ func main() {
 		if err != nil {
 			r.Violation("final-recording-unparsable", fmt.Sprintf("history %q: %v", h.Name, err), map[string]any{"history": h})
 			continue
+		}
+
+		// a history whose in-band parameters change must show it on disk: a later segment declares
+		// other codec parameters than the one before (else the change never reached the recorder)
+		if hasParamChange(h) {
+			n, err2 := headerParamsDiffer(final, segs)
+			if err2 != nil {
+				harnessErr("history %q: header: %v", h.Name, err2)
+			}
+			if n == 0 {
+				harnessErr("history %q: the in-band parameter change is not visible in any segment header", h.Name)
+			}
+			paramHists++
+			paramHeaders += n
 		}
 
 		// ---- section A: shape of the log (statement: a segment is a valid header followed by
@@ -560,6 +658,8 @@ func main() {
 
 	r.Set("histories", len(corpus.Hists))
 	r.Set("stream_shapes_closed_normally", shapes)
+	r.Set("histories_and_shapes_with_in_band_parameter_change", paramHists)
+	r.Set("segment_headers_with_changed_parameters", paramHeaders)
 	r.Set("leading_units_discarded_as_late_tolerated", lateDiscarded)
 	r.Set("history_steps", steps)
 	r.Set("write_log_entries", totalOps)
@@ -593,7 +693,7 @@ func main() {
 		"after a restart the later sessions are recorded completely and closed normally; the restarted recorder neither reads nor modifies files of earlier sessions (checked on the write log of the uninterrupted history)",
 		"samples older than the first sample the recorder could write, and the non-random-access video samples depending on them, are discarded by design: their absence is a don't-care",
 		"a watchdog expiry counts as a hang only when the case, alone on a fresh worker with three times the budget, does not end either",
-		"PTS == DTS in every history (no frame reordering); H.264 and MPEG-4 audio tracks only",
+		"PTS == DTS in every history (no frame reordering; checked with the recorder's own timestamp extractors); H.264 / H.265 / AV1 video and MPEG-4 audio tracks only; in-band parameter changes happen at key frames only",
 		"the newest unit of every track at close time is held back by the recorder: its presence is a don't-care",
 		"list must cover the complete parts within 2 ms (the header stores milliseconds, file names microseconds)",
 	}
